@@ -74,7 +74,7 @@ Local Notation "'#' k" := (nofZ Ops k) (at level 1, format "'#' k").
 (** ** Section 1.2: Compute_Gauss_Legendre_Roots_and_Weights(n, x_min, x_max), local copy.
 <<
 	double eps = 1.0e-14;  int m = (n + 1) / 2;
-	double x_middle = 0.5 * (x_max + x_min);  double x_half_width = 0.5 * (x_max - x_min);
+	double x_middle = 0.5 * x_max + 0.5 * x_min;  double x_half_width = 0.5 * x_max - 0.5 * x_min;
 	for(int i = 0; i < m; i++)
 	{	double pp;  double z = cos(M_PI * (i + 0.75) / (n + 0.5));
 		while(true)
@@ -134,8 +134,8 @@ Fixpoint gl_fill (cnt : nat) (i : Z) (n : Z) (xm xh : T) (rw : list (T * T)) : r
 
 Definition gl_rule (n : Z) (xmin xmax : T) : res (list (T * T)) :=
   let m := (n + 1) / 2 in
-  let xm := (ndec Ops 1 2 * (xmax + xmin))%num in
-  let xh := (ndec Ops 1 2 * (xmax - xmin))%num in
+  let xm := (ndec Ops 1 2 * xmax + ndec Ops 1 2 * xmin)%num in
+  let xh := (ndec Ops 1 2 * xmax - ndec Ops 1 2 * xmin)%num in
   gl_fill (Z.to_nat m) 0 n xm xh (repeat (n0 Ops, n0 Ops) (Z.to_nat n)).
 
 (** Integrate_Gauss_Legendre(func, a, b, sample_points): function values at the roots in order, then
